@@ -11,6 +11,7 @@ import (
 	"os"
 	"os/exec"
 	"path/filepath"
+	"runtime"
 	"strings"
 	"syscall"
 	"time"
@@ -36,6 +37,7 @@ func main() {
 	}
 	if os.Getenv("VERIF_CHILD") == "1" {
 		os.Setenv("VERIF_TIER", tier)
+		go memoryWatchdog()
 		run := ev.New(id, checks.Levels[id])
 		os.Exit(fn(run))
 	}
@@ -137,4 +139,22 @@ func lastLines(s string, n int) string {
 		lines = lines[len(lines)-n:]
 	}
 	return strings.Join(lines, "\n")
+}
+
+// memoryWatchdog ends the child with a diagnostic (exit 2, broken/inconclusive)
+// before a runaway allocation can take the whole sandbox down.
+func memoryWatchdog() {
+	const limit = 40 << 30
+	for {
+		time.Sleep(250 * time.Millisecond)
+		var m runtime.MemStats
+		runtime.ReadMemStats(&m)
+		if m.HeapAlloc > limit {
+			fmt.Fprintf(os.Stderr, "verif: memory watchdog: heap %d bytes exceeds %d; aborting check (inconclusive)\n", m.HeapAlloc, uint64(limit))
+			buf := make([]byte, 1<<20)
+			n := runtime.Stack(buf, true)
+			os.Stderr.Write(buf[:n])
+			os.Exit(2)
+		}
+	}
 }
